@@ -117,6 +117,9 @@ func c14(args []string) {
 	cases := c14Generate(newRng(*seed), fields, *n, *dir)
 	w := bufio.NewWriterSize(os.Stdout, 1<<20)
 	defer w.Flush()
+	if null, err := os.OpenFile(os.DevNull, os.O_WRONLY, 0); err == nil {
+		os.Stdout = null // Run prints progress lines ("Generate config ...") with fmt.Println
+	}
 	enc := json.NewEncoder(w)
 	if *only >= 0 {
 		c := cases[*only]
@@ -151,10 +154,17 @@ func c14Run(c *c14Case, fields []c14Field, w *bufio.Writer) {
 	if c.HasFile {
 		os.WriteFile(filepath.Join(proj, "config.yml"), []byte(c.yaml), 0o644)
 	}
+	// The tie goes through the REAL hermes.Run: the verif hook VerifConfig (called by Run right after readConfig) hands
+	// over the effective configuration; the probe then ends the run with a private panic value recovered here.
+	session := hermes.NewHermesSession()
 	if len(c.Hist) > 0 {
 		self, _ := os.Executable()
 		for _, line := range c.Hist {
-			exec.Command(self, append([]string{"c14", "runline", c.Root}, line...)...).Run()
+			if c.ID%2 == 0 {
+				c14ViaRun(session, c.Root, line) // same session
+			} else {
+				exec.Command(self, append([]string{"c14", "runline", c.Root}, line...)...).Run() // an earlier program start
+			}
 		}
 		// the generated file must be the rendering of NewDefaultConfig(), whatever the lines said
 		got, err := os.ReadFile(filepath.Join(proj, "config.yml"))
@@ -170,25 +180,14 @@ func c14Run(c *c14Case, fields []c14Field, w *bufio.Writer) {
 				c.ID, strings.Join(c.Hist[0], " "), c14DiffLines(string(want), string(got)))
 		}
 	}
-	// hermes/run.go:37-43, verbatim (the lines are inside Run and cannot be called; lib/props/c14.py checks on
-	// every run that run.go still contains exactly these statements)
-	argValues := make(map[string]string)
-	for _, token := range c.Tokens {
-		splitup := strings.Split(token, "=")
-		if len(splitup) == 2 {
-			argValues[splitup[0]] = splitup[1]
-		}
+	cfgp, ended := c14ViaRun(session, c.Root, c.Tokens)
+	session.Close()
+	if cfgp == nil {
+		fmt.Fprintf(w, "ORACLE run-ended-before-configuration case=%d: %s; line=%q\n", c.ID, ended, strings.Join(c.Tokens, " "))
+		c.Fatal = true
+		return
 	}
-	// hermes/run.go:77-81: the SAME map goes through ParseCropOverwrites before readConfig gets it (call sequence
-	// checked against the source on every run by lib/props/c14.py)
-	if _, err := hermes.ParseCropOverwrites(argValues); err != nil {
-		fmt.Fprintf(w, "ORACLE crop-parse case=%d: valid crop override arguments rejected: %v; line=%q\n", c.ID, err, strings.Join(c.Tokens, " "))
-	}
-	g := hermes.NewGlobalVarsMain()
-	g.Session = hermes.NewHermesSession()
-	hp := hermes.NewHermesFilePath(c.Root, "p", "u", "", "")
-	cfg := hermes.VerifReadConfig(&g, argValues, &hp)
-	g.Session.Close()
+	cfg := *cfgp
 	v := reflect.ValueOf(cfg)
 	obs := map[string]interface{}{}
 	for i, f := range fields {
@@ -199,6 +198,36 @@ func c14Run(c *c14Case, fields []c14Field, w *bufio.Writer) {
 		}
 	}
 	c14Oracle(c, fields, obs, w)
+}
+
+type c14Stop struct{}
+
+// c14ViaRun runs one batch line through the real hermes.Run (in this goroutine) up to the configuration probe
+func c14ViaRun(session *hermes.HermesSession, root string, tokens []string) (cfg *hermes.Config, ended string) {
+	hermes.VerifConfig = func(c *hermes.Config, g *hermes.GlobalVarsMain) {
+		cp := *c
+		cfg = &cp
+		panic(c14Stop{})
+	}
+	defer func() {
+		hermes.VerifConfig = nil
+		if r := recover(); r != nil {
+			if _, ok := r.(c14Stop); !ok {
+				cfg, ended = nil, fmt.Sprintf("panic: %v", r)
+			}
+		}
+	}()
+	out := make(chan *hermes.RunReturn, 1)
+	session.Run(root, tokens, "[0]", out, nil)
+	ended = "Run returned without reaching readConfig"
+	select {
+	case res := <-out:
+		if res != nil && res.Err != nil {
+			ended = "Run returned: " + res.Err.Error()
+		}
+	default:
+	}
+	return nil, ended
 }
 
 func c14DiffLines(want, got string) string {
@@ -556,6 +585,15 @@ func c14Generate(r *rng, fields []c14Field, n int, dir string) []*c14Case {
 	}
 	for _, c := range cases {
 		c.Root = filepath.Join(dir, fmt.Sprintf("g%05d", c.Group)) // permuted siblings share the project
+		for _, need := range []string{"project=p", "plotNr=1"} {  // Run wants them; they are no configuration keys
+			has := false
+			for _, t := range c.Tokens {
+				has = has || t == need
+			}
+			if !has {
+				c.Tokens = append(c.Tokens, need)
+			}
+		}
 		for _, h := range c.Hist {
 			for _, t := range h {
 				if p := strings.Split(t, "="); len(p) == 2 {
